@@ -7,7 +7,7 @@ import gen as G
 class C05(Prop):
     pid = "C05"
     rule = ("EXHAUSTIVE enumeration of CI in {on,off} x Update option in {unset,true,false} x UPDATE_SNAPS in "
-            "{unset,true,clean,other} x five entry points x entry state in {missing, equal, different} = 360 cells, "
+            "{unset,true,clean, 11 other strings incl. 1/t/TRUE/True/false/yes} x five entry points x entry state in {missing, equal, different} = 360 cells (x the other-string variants), "
             "each executed through the public API (plus random repeats with different values/names); the oracle is the "
             "table in the property text; non-trivial = every cell")
     outside_model = "capture of CI / UPDATE_SNAPS at start-up (package variables are set directly); Clean's part of the table is checked by C09"
@@ -19,7 +19,7 @@ class C05(Prop):
         for rep in range(reps):
             for ci in (False, True):
                 for opt in (None, True, False):
-                    for upd in ("unset", "true", "clean", "other"):
+                    for upd in ("unset", "true", "clean", "other") + tuple(G.OTHER_UPD[1:] if rep or tier == "quick" else ()):
                         for api in ("snap", "json", "yaml", "stand", "standjson"):
                             for state in ("missing", "equal", "different"):
                                 r = rng.fork()
@@ -51,7 +51,7 @@ class C05(Prop):
     @staticmethod
     def expected(ci, opt, upd, state):
         may_create = (not ci) and (opt if opt is not None else True)
-        may_update = (not ci) and (opt if opt is not None else upd == "true")
+        may_update = (not ci) and (opt if opt is not None else upd in ("true", "raw:true"))
         if state == "missing":
             return ("added", True) if may_create else ("failed:notfound", False)
         if state == "equal":
